@@ -1,0 +1,22 @@
+//go:build verif
+
+package parser
+
+// Verification hooks for property C11 (the compiler is total). Add-only; compiled
+// only with -tags verif.
+
+// VerifValidate runs the semantic validation parseFrugal applies to a parsed file
+// whose ParsedIncludes have been linked.
+func VerifValidate(f *Frugal) error { return f.validate() }
+
+// VerifIsValidType exposes isValidType.
+func VerifIsValidType(f *Frugal, t *Type) bool { return f.isValidType(t) }
+
+// VerifFinish does what parseFrugal does after a successful validation.
+func VerifFinish(f *Frugal) {
+	f.sort()
+	f.assignFrugal()
+}
+
+// VerifTypedefIndex returns the typedef the index maps a name to (nil if none).
+func VerifTypedefIndex(f *Frugal, name string) *TypeDef { return f.typedefIndex[name] }
